@@ -235,6 +235,8 @@ func (g *gen) ops(where, depth int, base int) []Op {
 			ops = append(ops, Op{K: "l", N: g.n(4), Body: g.ops(where, depth+1, base)})
 		case r < 94 && depth < 3:
 			ops = append(ops, Op{K: "i", C: g.cond(0), Body: g.ops(where, depth+1, base)})
+		case r < 95:
+			ops = append(ops, Op{K: "cl", F: g.file()})
 		case r < 97:
 			ops = append(ops, Op{K: "sa", N: 1 + g.n(len0(g)+2), S: g.operand()})
 		case r < 98:
@@ -294,6 +296,118 @@ func (g *gen) mixedCase() *Case {
 			cs.End = append(cs.End, Op{K: "x-"})
 		}
 	}
+	return cs
+}
+
+// ---- long runs: thousands of records, early exits from inside functions on most of them --------------------------------------
+
+// longPool: 4 files of 400-1400 records each
+func longPool(c *vh.Ctx) map[string][]string {
+	g := &gen{c: c}
+	pool := map[string][]string{}
+	for _, n := range []string{"L1", "L2", "L3", "L4"} {
+		k := 400 + c.Rng.Intn(1000)
+		recs := make([]string, k)
+		for i := range recs {
+			recs[i] = g.rec()
+		}
+		pool[n] = recs
+	}
+	return pool
+}
+
+// nest wraps ops in 1-3 levels of calls / loops / conditionals (each call level is rendered as some kind of user function)
+func (g *gen) nest(ops []Op) []Op {
+	for d := 1 + g.n(3); d > 0; d-- {
+		switch g.n(4) {
+		case 0, 1:
+			ops = []Op{{K: "c", Body: ops}}
+		case 2:
+			ops = []Op{{K: "l", N: 1 + g.n(2), Body: []Op{{K: "c", Body: ops}}}}
+		default:
+			ops = []Op{{K: "c", Body: []Op{{K: "i", C: &Cond{K: "t"}, Body: ops}}}}
+		}
+	}
+	return ops
+}
+
+func (g *gen) longArgs(lp map[string][]string) []string {
+	names := sortedKeys(lp)
+	var args []string
+	for k := 3 + g.n(2); k > 0; k-- {
+		args = append(args, names[g.n(len(names))])
+		switch g.n(6) {
+		case 0:
+			args = append(args, fmt.Sprintf("v%d=%s", g.n(3), g.word()))
+		case 1:
+			args = append(args, "")
+		}
+	}
+	return args
+}
+
+// keepCond: true on a minority of the records
+func (g *gen) keepCond() *Cond {
+	m := 5 + g.n(90)
+	c := &Cond{K: "nrmod", N: m, M: g.n(m)}
+	if g.n(3) == 0 {
+		c = &Cond{K: "and", A: c, B: &Cond{K: "h", N: int("abxy"[g.n(4)])}}
+	}
+	return c
+}
+
+// longCtlCase: most records are abandoned by next (sometimes nextfile) executed inside user functions — directly, nested,
+// in loops, recursively, or by a function called from the pattern; the few kept ones are traced. Pure bodies: the flat
+// specification is the oracle.
+func (g *gen) longCtlCase(lp map[string][]string) *Case {
+	cs := &Case{Class: "long-ctl", Args: g.longArgs(lp), Files: lp, Variant: g.c.Rng.Int63()}
+	keep := g.keepCond()
+	drop := &Cond{K: "not", A: keep}
+	if g.n(3) == 0 { // the pattern's function does the skipping
+		cs.Rules = append(cs.Rules, Rule{Pat: "p", B: &Cond{K: "t"}, Raise: "n", RaiseAt: "b", W: drop, Body: []Op{{K: "e", N: 1}}})
+	} else {
+		body := []Op{{K: "i", C: drop, Body: g.nest([]Op{{K: "n"}})}, {K: "e", N: 1}}
+		if g.n(2) == 0 { // a second early exit one rule pass deeper
+			body = append([]Op{{K: "c", Body: []Op{{K: "i", C: &Cond{K: "nrmod", N: 2 + g.n(5), M: 0}, Body: g.nest([]Op{{K: "n"}})}}}}, body...)
+		}
+		cs.Rules = append(cs.Rules, Rule{Pat: "a", Body: body})
+	}
+	if g.n(2) == 0 { // nextfile from inside functions, far into a file
+		nf := Rule{Pat: "p", B: &Cond{K: "fnr", N: 50 + g.n(600)}, Body: g.nest([]Op{{K: "nf"}})}
+		cs.Rules = append([]Rule{nf}, cs.Rules...)
+	}
+	if g.n(2) == 0 { // a range rule behind the skipping rules sees only the kept records
+		cs.Rules = append(cs.Rules, Rule{Pat: "r", B: &Cond{K: "h", N: int("abxy"[g.n(4)])}, E: &Cond{K: "h", N: int("abxy"[g.n(4)])}, Body: []Op{{K: "e", N: 2}}})
+	}
+	cs.HasEnd = true
+	cs.End = []Op{{K: "e", N: 900}}
+	return cs
+}
+
+// longGetlineCase: a tick rule, then on every record getline var < file (and the other forms now and then) with the file
+// closed and reopened again and again, partly inside functions that are left early
+func (g *gen) longGetlineCase(lp map[string][]string) *Case {
+	files := map[string][]string{}
+	for k, v := range lp {
+		files[k] = v
+	}
+	for k, v := range g.pool {
+		files[k] = v
+	}
+	cs := &Case{Class: "long-getline", Args: g.longArgs(lp)[:2], Files: files, Variant: g.c.Rng.Int63()}
+	f := g.file()
+	body := []Op{{K: "gvf", V: g.n(3), F: f}}
+	if g.n(2) == 0 {
+		body = append(body, Op{K: "e", N: 110}, Op{K: "gf", F: f}, Op{K: "e", N: 111})
+	}
+	closeEvery := &Cond{K: "nrmod", N: 1 + g.n(3), M: 0}
+	body = append(body, Op{K: "i", C: closeEvery, Body: []Op{{K: "cl", F: f}}})
+	if g.n(2) == 0 {
+		body = append(body, Op{K: "i", C: &Cond{K: "nrmod", N: 2, M: 1}, Body: g.nest([]Op{{K: "gv", V: g.n(3)}, {K: "n"}})})
+	}
+	cs.Rules = []Rule{tick, {Pat: "a", Body: g.nest(body)}}
+	cs.HasEnd = true
+	cs.End = []Op{{K: "e", N: 900}}
 	return cs
 }
 
